@@ -16,7 +16,7 @@ TITLE = 'Healthy keys and signatures are never accused'
 RULE = (
     'Populations derived from SHAKE-256 material: RSA keys of exactly 2048/3072/4096 bits (product of two '
     'independent random primes, e = 65537) in batches of 1..N without prime reuse; EC keys with uniform '
-    'private keys on the eight supported curves of at least 224 bits in batches of 1..200 keys (quick: up to 120) (including the same '
+    'private keys on the eight supported curves of at least 224 bits in batches of 1..120 keys (including the same '
     'healthy key listed twice); ECDSA signatures with uniform nonces (1-60 per issuer, 1-4 issuers, mixed '
     'curves, digests of 20-64 bytes). Each batch goes through the all-checks entry point. A second arm places '
     'the same healthy artifacts in a batch with weak ones (which share no prime / have no close private key / '
@@ -166,7 +166,7 @@ def run_ec(desc):
 
 def strat_ec(tier):
   part = st.tuples(st.integers(0, 7), st.sampled_from([1, 2, 5, 20, 60] if tier == 'quick' else
-                                                      [1, 2, 5, 20, 60, 100])).map(list)
+                                                      [1, 2, 5, 20, 40, 60])).map(list)
   return st.fixed_dictionaries({
       'm': material, 'parts': st.lists(part, min_size=1, max_size=2), 'pad': st.sampled_from([0, 0, 1]),
       'dups': st.lists(st.integers(0, 50), max_size=2),
